@@ -29,7 +29,7 @@ YOUR TASK: make a small source change under {wt}/src/wikitextprocessor/ (Python 
  1. the package still imports and the existing test suite gives EXACTLY the same result as before (729 passed, and the same 266 Lua tests failing) - verify this by running it;
  2. the property above is violated for some inputs / histories / schedules - a genuine behavioural break of that statement, not merely a style change;
  3. the break needs something SPECIFIC to manifest - e.g. an unusual input shape, a multi-step sequence of operations, a particular interleaving or crash point, an uncommon option combination, or two cooperating code sites that each look fine alone. It must NOT be something that any ordinary first use would expose at once (e.g. do not break every template expansion). Think of a plausible regression a maintainer could introduce in a refactoring or an "optimisation": an off-by-one at a boundary, a dropped cache invalidation, a condition narrowed or widened in one branch, a swapped argument in a rarely taken path, a missed reset of state on an error path.
- 4. you write a demonstration program {wt}/_seed/demo.py that exits 0 on the UNCHANGED code and exits non-zero (with a short message saying what went wrong) on the CHANGED code. It must run in under 60 s with `cd {wt} && PYTHONPATH={wt}/src /venv/bin/python _seed/demo.py`. Verify BOTH directions yourself (use `git stash` / `git stash pop` or `git diff > file; git checkout -- src; ...; git apply file`).
+ 4. you write a demonstration program {wt}/_seed/demo.py that exits 0 on the UNCHANGED code and exits non-zero (with a short message saying what went wrong) on the CHANGED code. It must run in under 60 s with `cd {wt} && PYTHONPATH={wt}/src /venv/bin/python _seed/demo.py`. Verify BOTH directions yourself with `git diff -- src > /tmp/your-own-file.diff; git checkout -- src; ...; git apply /tmp/your-own-file.diff`. Do NOT use `git stash`: the stash is shared between all worktrees of the repository and other engineers are working in sibling worktrees at the same time.
 
 Deliver, inside {wt}/_seed/ :
   - patch.diff : output of `git -C {wt} diff -- src` (the change, relative to the worktree root, applicable with `git apply`)
